@@ -120,8 +120,9 @@ func (s *FakeSup) Exec(ctx context.Context, req *supvmodel.ExecRequest) error {
 	s.order = append(s.order, p)
 	code, early := s.ExitInExec[base]
 	lat := s.ExecLatency
-	s.mu.Unlock()
+	// the start is on record before anybody can find the process (and, say, make it exit)
 	s.rec.Emit("sup", "Exec", append(kv, "err", "")...)
+	s.mu.Unlock()
 	if early {
 		s.die(p, &code, nil, "self")
 	}
